@@ -108,6 +108,7 @@ class LogCtx(BaseCtx):
         self.t0 = self.world.now()
         self.crashes_left = cfg["n_crashes"]
         self.restarts_left = cfg["n_restarts"]
+        self.clock_steps_left = cfg.get("clock_steps", 0)
         self.sent_sweep = False
         self.reported = 0
 
@@ -128,6 +129,9 @@ class LogCtx(BaseCtx):
             if mode == "power":
                 keep = rng.pick([0, 1, 2, 5, 17, 40, rng.randrange(0, 200), None])
             return ["arm", rng.randrange(1, cfg["crash_window"]), mode, keep, rng.chance(0.3)]
+        if self.clock_steps_left > 0 and rng.chance(0.08):
+            self.clock_steps_left -= 1
+            return ["clockstep", rng.pick([-86400.0, -3600.0, -60.0, -1.5, -0.25, 0.5, 3600.0])]
         if self.restarts_left > 0 and rng.chance(cfg["p_restart"]):
             self.restarts_left -= 1
             return ["restart"]
@@ -222,6 +226,8 @@ class LogCtx(BaseCtx):
         ran = w.apply(op)
         if not ran:
             return
+        if op[0] == "clockstep":
+            self.stats["clock_step:%s" % ("back" if op[1] < 0 else "forward")] += 1
         if op[0] == "restart":
             self.stats["restarts"] += 1
             self.check_boot()
@@ -406,10 +412,10 @@ class LogProfile(BaseProfile):
             "write_keepalive, ROUTE-REFRESH, NOTIFICATION, connection lost/failed) with a rotation threshold forcing 0..k "
             "rotations, up to 4 crashes armed at a file-system call drawn inside the following events (process kill, or power "
             "loss keeping 0..n characters of the un-synced tail, optionally losing a never-synced new file) and clean restarts, "
-            "audit after every restart and at the end; every (runs/sweeps)-th run is a SWEEP: for one history every "
+            "0-2 steps of the wall clock (-1 day .. +1 h; file names and 't' follow the wall clock, the reactor does not), audit after every restart and at the end; every (runs/sweeps)-th run is a SWEEP: for one history every "
             "file-system call boundary x kill and every fsync x every byte offset of the un-synced tail; non-trivial = at "
             "least one record acknowledged; distinct = distinct (op, state, records) sequence")
-    probes = ["restarts", "crash:kill", "crash:power", "crash_in:write", "crash_in:fsync", "crash_in:flush", "crash_in:open",
+    probes = ["clock_step:back", "clock_step:forward", "restarts", "crash:kill", "crash:power", "crash_in:write", "crash_in:fsync", "crash_in:flush", "crash_in:open",
               "torn_tail_candidates", "tolerated_crash_fragments", "rotations", "runs_with_rotation", "records_acked"]
     components = dict(BaseProfile.components)
     components = {"real": BaseProfile.components["real"] + ["yabgp.handler.default_handler.DefaultHandler", "yabgp.agent.check_msg_config"],
@@ -435,6 +441,8 @@ class LogProfile(BaseProfile):
             cfg["remote_addr"] = rng.pick(["2001:DB8::2", "2001:db8:0:0:0:0:0:2", "2001:0DB8::0002"])
         # a coarse wall clock: two file names chosen at one instant are equal
         cfg["coarse_clock"] = rng.chance(0.25)
+        # wall-clock steps (the reactor's time base is monotonic; file names and 't' use the wall clock)
+        cfg["clock_steps"] = rng.pick([0, 0, 0, 1, 2])
         cfg["peer_open"] = rp.encode_open(cfg["remote_as"], rng.pick([0, 90]), "2.2.2.2",
                                           [rp.cap_mp(1, 1), rp.cap_rr(), rp.cap_as4(cfg["remote_as"])]).hex()
         every = max(1, self.runs[tier] // self.sweeps[tier])
